@@ -153,7 +153,9 @@ func genDbCase(c *Ctx, backend, dom string) string {
 		case x < 17:
 			ops = append(ops, "L:"+langs[r.Intn(len(langs))])
 		case x < 18:
-			t := []int{0, 1, 2, 4, 8, 16}[r.Intn(6)]
+			// single types and combined masks (the idiom of examples/db: one call for several types), also when only some of the
+			// types in the mask are in the requested state already
+			t := []int{0, 1, 2, 4, 8, 16, 1 | 2 | 4, 2 | 4, 4 | 8, 1 | 2 | 4 | 8, 2 | 8, 1 | 4 | 32}[r.Intn(12)]
 			if t == 0 && r.Intn(3) > 0 {
 				t = 4
 			}
